@@ -32,3 +32,76 @@ Theorem C06_nothing_executed : forall cfg orc root help_text args r r' res t m,
   l_exec (rt_logs r') = l_exec (rt_logs r).
 Proof. exact C09_no_exec_on_flags_error. Qed.
 Print Assumptions C06_nothing_executed.
+
+(* ---- added by bin/mkprops (batch 2) ---- *)
+From GoFlags Require Import Base.Str Base.Utf8 Golib.Strings Golib.Strconv Model.Types Model.Tag Model.Scan Model.Lookup Model.Convert Model.State Model.Closest Model.Help Model.Parse Model.Ini Model.Complete.
+From GoFlags Require Import Proofs.RequiredSpec.
+
+(* independent reading of a positional count constraint being unmet (required / N / N-M) *)
+Theorem C06_positional_unmet_spec :
+  forall (root : command) (s : pst) (r : rt) (a : arg),
+         arg_unmet root s r a = true <->
+         is_slice (a_ty a) = false /\
+         (c_args_required (cmd_info (cur_cmd root s)) = true \/ a_req a <> (-1)%Z \/ a_max a <> (-1)%Z) \/
+         is_slice (a_ty a) = true /\
+         (a_req a <> (-1)%Z \/ a_max a <> (-1)%Z) /\
+         (let n := stored_count (rt_vals r (a_fid a)) in
+          (n < a_req a)%Z \/ a_max a <> (-1)%Z /\ (a_max a < n)%Z).
+Proof. exact @arg_unmet_spec. Qed.
+Print Assumptions C06_positional_unmet_spec.
+
+Theorem C06_positional_iff :
+  forall (root : command) (s : pst) (r : rt) (a : arg),
+         arg_reqname root s r a = [] <-> arg_unmet root s r a = false.
+Proof. exact @C06_positional_constraints. Qed.
+Print Assumptions C06_positional_iff.
+
+(* a parse succeeds only if every positional count constraint of the innermost command is met *)
+Theorem C06_positional_success :
+  forall (cfg : pconfig) (orc : oracles) (root : command) (ht : rt -> str) (args : list str) 
+           (r r' : rt) (res0 : presult),
+         parse_body cfg orc root ht args r = Ok (r', res0) ->
+         pr_err res0 = None ->
+         exists (s : pst) (r1 : rt),
+           parse_core cfg orc root ht args r = Ok (s, r1) /\
+           ps_err s = None /\ (forall a : arg, In a (ps_pos s) -> arg_unmet root s r1 a = false).
+Proof. exact @C06_positional_main_body. Qed.
+Print Assumptions C06_positional_success.
+
+(* when no option is missing, an unmet positional constraint yields ErrRequired *)
+Theorem C06_positional_reported :
+  forall (cfg : pconfig) (root : command) (s : pst) (r : rt),
+         (forall (pc : list nat * command) (oc : octx),
+          In pc (active_chain (cmd_depth root) (rt_active r) root []) ->
+          In oc (cmd_octxs (snd pc)) ->
+          o_required (oc_opt oc) = true -> f_isset (rt_fl r (o_fid (oc_opt oc))) = true) ->
+         (exists a : arg, In a (ps_pos s) /\ arg_unmet root s r a = true) ->
+         exists m : str, check_required cfg root s r = ps_with_err s (Some (EFlags ErrRequired m)).
+Proof. exact @C06_positional_message. Qed.
+Print Assumptions C06_positional_reported.
+
+(* options required only by commands that were not selected are never demanded *)
+Theorem C06_unselected_commands_not_demanded :
+  forall (cfg : pconfig) (root : command) (s : pst) (r : rt),
+         (forall (pc : list nat * command) (oc : octx),
+          In pc (tree_cmds root) ->
+          In oc (cmd_octxs (snd pc)) ->
+          o_required (oc_opt oc) = true ->
+          f_isset (rt_fl r (o_fid (oc_opt oc))) = false ->
+          ~ In pc (active_chain (cmd_depth root) (rt_active r) root [])) ->
+         (forall a : arg, In a (ps_pos s) -> arg_unmet root s r a = false) -> check_required cfg root s r = s.
+Proof. exact @C06_unselected_not_demanded. Qed.
+Print Assumptions C06_unselected_commands_not_demanded.
+
+Theorem C06_check_required_exact :
+  forall (cfg : pconfig) (root : command) (s : pst) (r : rt),
+         ps_err s = None ->
+         check_required cfg root s r = s <->
+         (forall (pc : list nat * command) (oc : octx),
+          In pc (active_chain (cmd_depth root) (rt_active r) root []) ->
+          In oc (cmd_octxs (snd pc)) ->
+          o_required (oc_opt oc) = true -> f_isset (rt_fl r (o_fid (oc_opt oc))) = true) /\
+         (forall a : arg, In a (ps_pos s) -> arg_unmet root s r a = false).
+Proof. exact @C06_check_required_id_iff. Qed.
+Print Assumptions C06_check_required_exact.
+
